@@ -69,12 +69,17 @@ func NewWaitCloserFromParent(p WaitCloser, stopFun func(error)) WaitCloser {
 	}
 
 	SafeGo(func() {
+		// closing p cancels wc's context too, so both channels become ready together :
+		// whichever is seen first, a closed parent must close wc (IsClosed, stopFun, Error)
+		select {
+		case <-p.Done():
+		case <-wc.Done():
+		}
 		select {
 		case <-p.Done():
 			wc.Close(p.Error())
-		case <-wc.Done():
+		default:
 		}
-		return
 	}, nil)
 
 	return wc
@@ -89,10 +94,14 @@ func NewWaitCloserFromContext(pctx context.Context, stopFun func(error)) WaitClo
 	}
 
 	SafeGo(func() {
+		// cancelling pctx cancels wc's context too, so both channels become ready together :
+		// whichever is seen first, a cancelled parent must close wc (IsClosed, stopFun, Error)
 		select {
 		case <-pctx.Done():
-			wc.Close(pctx.Err())
 		case <-wc.Done():
+		}
+		if err := pctx.Err(); err != nil {
+			wc.Close(err)
 		}
 	}, nil)
 
